@@ -135,16 +135,19 @@ def check_structure(label, what, states, case, kind):
                 if tuple(adv + out) != order:
                     return f"round {r}: advancing {adv} / eliminated {out} do not obey the recorded order {order}"
             elif what in ("stv", "alaska"):
+                # the deciding tally is the previous round's tallies (the previous round's `remaining` may list candidates
+                # that are tied on the tally as separate singletons, e.g. in the order of Alaska's first-stage tiebreak)
+                live = {c: v for c, v in prev_sc.items()}
                 if el:
-                    top = prev[1][0] if prev[1] else ()
-                    if frozenset(top) != T:
-                        return f"round {r}: election tiebreak on {sorted(T)} but the highest group was {top}"
+                    top = frozenset(c for c, v in live.items() if v == max(live.values()))
+                    if top != T:
+                        return f"round {r}: election tiebreak on {sorted(T)} but the candidates with the highest tally were {sorted(top)}"
                     if el != [order[0]]:
                         return f"round {r}: elected {el} is not the first of the recorded order {order}"
                 elif xs:
-                    low = prev[1][-1] if prev[1] else ()
-                    if frozenset(low) != T:
-                        return f"round {r}: elimination tiebreak on {sorted(T)} but the lowest group was {low}"
+                    low = frozenset(c for c, v in live.items() if v == min(live.values()))
+                    if low != T:
+                        return f"round {r}: elimination tiebreak on {sorted(T)} but the candidates with the lowest tally were {sorted(low)}"
                     if xs != [order[-1]]:
                         return f"round {r}: eliminated {xs} is not the last of the recorded order {order}"
                 else:
